@@ -143,6 +143,10 @@ def c19_converters(ctx, prog):
         if builds or cvars:
             ctx.ob("C19.F1c", F.name, "a helper that builds a C aggregate: its initialisers are checked field by field (C19.F1)", True, None)
             continue
+        he = [n for n in F.walk() if n["k"] == "CallExpr" and n.get("callee") == "error_code_from"]
+        if he and F.params and all(source_name(n["c"][1]) == F.params[0]["name"] for n in he):
+            ctx.ob("C19.F1c", F.name, "a helper that pairs a C result with error_code_from of the same value (checked where it is used: C19.F4)", True, None)
+            continue
         rets = [x for x in F.walk() if x["k"] == "ReturnStmt" and x.get("c")]
         branching = [x["k"] for x in F.walk() if x["k"] in ("ConditionalOperator", "IfStmt", "SwitchStmt", "BinaryOperator", "ForStmt", "WhileStmt",
                                                            "BinaryConditionalOperator", "CompoundAssignOperator", "UnaryOperator")]
@@ -284,7 +288,7 @@ def c19_wrappers(ctx, prog, cprog):
             names = [source_name(x) for x in a[1:]]
             resolved = [source_name(x, F) for x in a[1:]]
             det["args"] = names
-            ok = h == "impl_" or chain_any(a[0]) and "impl_" in expr_str(a[0])
+            ok = h == "impl_" or source_name(a[0], F) == "impl_" or chain_any(a[0]) and "impl_" in expr_str(a[0])
             # a local with a single definition stands for its initialiser (`int ms = timeout.count(); reproc_wait(p, ms)`)
             ok = ok and len(names) == len(argnames) and all(w in (x, y) for w, x, y in zip(argnames, names, resolved))
             # the result variable feeds error_code_from and (where a value is returned) the value itself
@@ -295,7 +299,24 @@ def c19_wrappers(ctx, prog, cprog):
             if par is not None and par["k"] == "VarDecl":
                 rv = par["name"]
             ecalls = [n for n in F.walk() if n["k"] == "CallExpr" and n.get("callee") == "error_code_from"]
-            ok = ok and rv is not None and len(ecalls) == 1 and source_name(ecalls[0]["c"][1]) == rv
+            flows = rv is not None and len(ecalls) == 1 and source_name(ecalls[0]["c"][1]) == rv
+            if not flows and len(ecalls) == 1 and cstrip(ecalls[0]["c"][1])["id"] == ccalls[0]["id"]:
+                flows = True          # error_code_from(reproc_x(...)) - the result goes straight in
+            if not flows and rv is not None and not ecalls:
+                # the result is handed to one local helper that pairs it with error_code_from of the same value
+                byname = {}
+                for Fx in prog.funcs_all:
+                    if Fx.file.endswith("reproc.cpp"):
+                        byname.setdefault(Fx.name, Fx)
+                helpers = [n for n in F.walk() if n["k"] == "CallExpr" and n.get("callee") in byname and len(n["c"]) == 2
+                           and source_name(n["c"][1]) == rv]
+                if len(helpers) == 1:
+                    H = byname[helpers[0]["callee"]]
+                    he = [n for n in H.walk() if n["k"] == "CallExpr" and n.get("callee") == "error_code_from"]
+                    vals = [n for n in H.walk() if n["k"] == "DeclRefExpr" and n["name"] == H.params[0]["name"]] if H.params else []
+                    branching = [n for n in H.walk() if n["k"] in ("IfStmt", "ConditionalOperator", "SwitchStmt", "BinaryOperator", "UnaryOperator")]
+                    flows = len(he) == 1 and source_name(he[0]["c"][1]) == H.params[0]["name"] and len(vals) == 2 and not branching
+            ok = ok and flows
             det["result_var"] = rv
             if m == "fork":
                 # true in the child: r == 0
@@ -308,44 +329,100 @@ def c19_wrappers(ctx, prog, cprog):
                 ok = ok and len(fk) == 1 and cstrip(fk[0]["c"][2]).get("val") == 0
         ctx.ob("C19.F4", q, "the method calls exactly %s on the owned handle with its own parameters in order, and returns that call's result "
                "and error_code_from of it" % cfn, ok, det, nontrivial=True)
-    # error translation
+    # error translation: error_code_from is walked through its CFG for representative results r - every branch condition is a
+    # comparison of r with constants, so the walk is deterministic; what matters is the last error_code the path constructs
     F = prog.fn("reproc::error_code_from")
-    rets = [x for x in F.walk() if x["k"] == "ReturnStmt"]
-    ifs = [x for x in F.walk() if x["k"] == "IfStmt"]
-    ok_nonneg = False
-    specials = []
-    generic_default = False
-    for i in ifs:
-        c = cstrip(F.nodes[i["cond"]])
-        if c["k"] == "BinaryOperator" and c["op"] == ">=" and cstrip(c["c"][1]).get("val") == 0:
-            then = F.nodes[i["then"]]
-            r = [x for x in walk_nodes(then) if x["k"] == "ReturnStmt"]
-            ok_nonneg = len(r) == 1 and not [y for y in walk_nodes(r[0]) if y["k"] in ("DeclRefExpr",) and y.get("dk") != "func"]
-        elif c["k"] == "BinaryOperator" and c["op"] == "==":
-            cn = [y for y in walk_nodes(c) if y["k"] == "DeclRefExpr" and y["name"].startswith("REPROC_E")]
-            then = F.nodes[i["then"]]
-            codes = [y for y in walk_nodes(then) if y["k"] == "DeclRefExpr" and y.get("dk") == "enum"]
-            if cn and codes:
-                specials.append((cn[0]["name"], codes[0]["name"], codes[0]["val"], []))
-    # the general case: some return builds {-r, system_category()}
-    for rs in rets:
-        neg = [x for x in walk_nodes(rs) if x["k"] == "UnaryOperator" and x["op"] == "-"]
-        cats = [x.get("callee") for x in walk_nodes(rs) if x["k"] == "CallExpr"]
-        if len(neg) == 1 and source_name(neg[0]["c"][0]) == "r" and "system_category" in cats:
-            generic_default = True
-    # a table of (C error, std::errc) pairs, whatever drives it (if-chain above, or an array of structs)
+    pname = F.params[0]["name"] if F.params else None
+
+    def evalc(n, r):
+        n = cstrip(n)
+        k = n["k"]
+        if k in ("IntegerLiteral", "CXXBoolLiteralExpr") or (isinstance(n.get("val"), int) and k != "DeclRefExpr"):
+            return n.get("val")
+        if k == "DeclRefExpr":
+            if n["name"] == pname:
+                return r
+            if isinstance(n.get("val"), int):
+                return n["val"]
+            if n["name"] in cprog.consts:
+                return cprog.consts[n["name"]]
+            return None
+        if k == "UnaryOperator" and n["op"] in ("-", "!"):
+            v = evalc(n["c"][0], r)
+            return None if v is None else (-v if n["op"] == "-" else int(not v))
+        if k == "BinaryOperator" and n["op"] in ("<", "<=", ">", ">=", "==", "!=", "&&", "||"):
+            x, y = evalc(n["c"][0], r), evalc(n["c"][1], r)
+            if x is None or y is None:
+                return None
+            return int({"<": x < y, "<=": x <= y, ">": x > y, ">=": x >= y, "==": x == y, "!=": x != y, "&&": bool(x and y), "||": bool(x or y)}[n["op"]])
+        return None
+
+    def walk(r):
+        b = F.cfg.entry
+        last = None
+        for _ in range(300):
+            B = F.cfg.blocks[b]
+            for e in B.elems:
+                n = F.nodes.get(e)
+                if n is None or n["k"] not in ("CXXConstructExpr", "CXXTemporaryObjectExpr", "InitListExpr", "CXXFunctionalCastExpr"):
+                    continue
+                t = n.get("ct") or n.get("t") or ""
+                if "error_code" not in t:
+                    continue
+                args = [x for x in n.get("c", [])]
+                if len(args) == 1 and "error_code" in (cstrip(args[0]).get("ct") or cstrip(args[0]).get("t") or ""):
+                    continue          # copy / move of an existing error_code
+                if len(args) == 0:
+                    last = ("success",)
+                elif len(args) == 2:
+                    cat = [y.get("callee") for y in walk_nodes(args[1]) if y["k"] == "CallExpr"]
+                    last = ("error", evalc(args[0], r), cat[0] if cat else None)
+                else:
+                    last = ("other", len(args))
+            if b == F.cfg.exit or not B.succs:
+                return last
+            edges = F.cfg.edges(B)
+            if B.tcond is not None and len(edges) == 2:
+                v = evalc(F.nodes[B.tcond], r)
+                if v is None:
+                    return "undecidable"
+                want = ("T",) if v else ("F",)
+                nxt = [s_ for s_, lab in edges if lab == want]
+                if not nxt:
+                    return "undecidable"
+                b = nxt[0]
+            else:
+                nxt = [s_ for s_, lab in edges if s_ is not None]
+                if len(nxt) != 1:
+                    return "undecidable"
+                b = nxt[0]
+        return "undecidable"
+    samples = [0, 1, 7, 4096] + [cprog.const(x) for x in ("REPROC_EINVAL", "REPROC_EPIPE", "REPROC_ETIMEDOUT", "REPROC_ENOMEM", "REPROC_EWOULDBLOCK")] + [-1, -5, -13]
+    undec = []
+    for r in samples:
+        got = walk(r)
+        if got == "undecidable":
+            undec.append(r)
+            continue
+        if r >= 0:
+            ctx.ob("C19.F4e", "error_code_from(%d)" % r, "non-negative results become success (an empty error code)", got == ("success",), {"result": str(got)})
+        else:
+            ok = isinstance(got, tuple) and got[0] == "error" and got[1] == -r and got[2] in ("system_category", "generic_category")
+            ctx.ob("C19.F4e", "error_code_from(%d)" % r, "a negative result becomes an error code with the value -r (the same errno number, in the "
+                   "system or the generic category: an equivalent error)", ok, {"result": str(got), "expected_value": -r})
+    # a table of (C error, std::errc) pairs, whatever drives it: each pair must name the same errno number
     for il in F.walk():
         if il["k"] == "InitListExpr" and len(il.get("c", [])) == 2:
             a0, b0 = cstrip(il["c"][0]), cstrip(il["c"][1])
             cn = [y for y in walk_nodes(a0) if y["k"] == "DeclRefExpr" and y["name"].startswith("REPROC_E")]
             en = [y for y in walk_nodes(b0) if y["k"] == "DeclRefExpr" and y.get("dk") == "enum"]
             if cn and en:
-                specials.append((cn[0]["name"], en[0]["name"], en[0]["val"], []))
-    ctx.ob("C19.F4e", "error_code_from: r >= 0", "non-negative results become success (an empty error code)", ok_nonneg, None)
-    ctx.ob("C19.F4e", "error_code_from: r < 0", "a negative result becomes the error code -r in the system category", generic_default, None)
-    for cname, ename, eval_, cats in specials:
-        ctx.ob("C19.F4e", "error_code_from: %s" % cname, "a specially translated C error maps to the std::errc value with the same number "
-               "(an equivalent error)", eval_ == -cprog.const(cname), {"errc": ename, "errc_value": eval_, "c_value": cprog.const(cname)})
+                ctx.ob("C19.F4e", "error_code_from: %s" % cn[0]["name"], "a specially translated C error maps to the std::errc value with the same "
+                       "number (an equivalent error)", en[0]["val"] == -cprog.const(cn[0]["name"]),
+                       {"errc": en[0]["name"], "errc_value": en[0]["val"], "c_value": cprog.const(cn[0]["name"])})
+    if undec:
+        ctx.floor_failures.append("C19.F4e: error_code_from could not be evaluated for r in %s (a branch condition is not a comparison of r with constants); "
+                                  "no verdict on the error translation" % undec)
     ctx.floor("C19.F4", 10)
     # F5 poll copy in / out
     P = prog.fn("reproc::poll")
